@@ -783,6 +783,17 @@ pub fn type_choices_from_group_choice<'a>(
   cddl: &'a CDDL,
   grpchoice: &GroupChoice<'a>,
 ) -> Vec<TypeChoice<'a>> {
+  type_choices_from_open_group_choice(cddl, grpchoice, &mut Vec::new())
+}
+
+/// `open` holds the names of the group rules being expanded: a group that is
+/// named again inside its own expansion contributes nothing, so cyclic group
+/// references (`g = (a: 1, h)`, `h = (b: 2, g)`) terminate.
+fn type_choices_from_open_group_choice<'a>(
+  cddl: &'a CDDL,
+  grpchoice: &GroupChoice<'a>,
+  open: &mut Vec<&'a str>,
+) -> Vec<TypeChoice<'a>> {
   let mut type_choices = Vec::new();
   for ge in grpchoice.group_entries.iter() {
     match &ge.0 {
@@ -794,16 +805,22 @@ pub fn type_choices_from_group_choice<'a>(
         if let Some(r) = rule_from_ident(cddl, &ge.name) {
           match r {
             Rule::Type { rule, .. } => type_choices.append(&mut rule.value.type_choices.clone()),
-            Rule::Group { rule, .. } => type_choices.append(&mut type_choices_from_group_choice(
-              cddl,
-              &GroupChoice::new(vec![rule.entry.clone()]),
-            )),
+            Rule::Group { rule, .. } if !open.contains(&ge.name.ident) => {
+              open.push(ge.name.ident);
+              type_choices.append(&mut type_choices_from_open_group_choice(
+                cddl,
+                &GroupChoice::new(vec![rule.entry.clone()]),
+                open,
+              ));
+              open.pop();
+            }
+            Rule::Group { .. } => {}
           }
         }
       }
       GroupEntry::InlineGroup { group, .. } => {
         for gc in group.group_choices.iter() {
-          type_choices.append(&mut type_choices_from_group_choice(cddl, gc));
+          type_choices.append(&mut type_choices_from_open_group_choice(cddl, gc, open));
         }
       }
     }
